@@ -555,13 +555,11 @@ def microDet (fl : Flavour) (cfg : Cfg) (s : St) : P → Option (St × P)
     match findH s.hs h with
     | none => none
     | some hd => recvStep fl cfg s t f hd n got
-  | .rvSend t _ =>
-    match extract t s.sdone with
-    | some (v, rest) => some ({ s with sdone := rest }, .fin { tag := .ok, sent := [v] })
-    | none =>
-      match extract t s.sdisc with
-      | some (v, rest) => some ({ (s.lose [v]) with sdisc := rest }, .fin { tag := .closed, lost := [v] })
-      | none => none
+  | .rvSend t v =>
+    if (t, v) ∈ s.sdone then some ({ s with sdone := s.sdone.erase (t, v) }, .fin { tag := .ok, sent := [v] })
+    else if (t, v) ∈ s.sdisc then
+      some ({ (s.lose [v]) with sdisc := s.sdisc.erase (t, v) }, .fin { tag := .closed, lost := [v] })
+    else none
   | .rvRecv t =>
     match extract t s.rdone with
     | some (v, rest) => some ({ s with rdone := rest }, .fin { tag := .ok, got := [v] })
@@ -630,15 +628,29 @@ def retire (fl : Flavour) (cfg : Cfg) (s : St) (op : Op) : St :=
 
 def blocksOut : Out := { tag := .blocks }
 
-def runP (fl : Flavour) (cfg : Cfg) : Nat → St → P → St × Out
-  | 0, s, _ => (s, blocksOut)
+/-- values still in the hands of an operation in progress -/
+def P.inHand : P → List Val
+  | .bsend _ _ _ _ rest _ => rest
+  | .bsendEnd _ _ _ rest => rest
+  | _ => []
+
+def P.outOrBlocks : P → Out
+  | .fin o => o
+  | _ => blocksOut
+
+/-- run one operation's deterministic steps until it finishes or cannot move -/
+def runPS (fl : Flavour) (cfg : Cfg) : Nat → St → P → St × P
+  | 0, s, p => (s, p)
   | fuel + 1, s, p =>
     match p with
-    | .fin o => (s, o)
+    | .fin _ => (s, p)
     | _ =>
       match microDet fl cfg s p with
-      | none => (s, blocksOut)
-      | some (s', p') => runP fl cfg fuel s' p'
+      | none => (s, p)
+      | some (s', p') => runPS fl cfg fuel s' p'
+
+def runP (fl : Flavour) (cfg : Cfg) (fuel : Nat) (s : St) (p : P) : St × Out :=
+  ((runPS fl cfg fuel s p).1, (runPS fl cfg fuel s p).2.outOrBlocks)
 
 def Op.size : Op → Nat
   | .snd _ _ vs => vs.length
@@ -647,12 +659,21 @@ def Op.size : Op → Nat
 
 def seqCfg : Cfg := { hot := true, granular := false }
 
-/-- Q: one API call run to completion with nobody else running. -/
+/-- Q with the final operation state (finished, or where it is stuck) -/
+def stepOpS (fl : Flavour) (s : St) (op : Op) : St × P :=
+  runPS fl seqCfg (op.size + 4) s (.fresh 0 op)
+
+/-- Q: one API call run to completion with nobody else running (`blocks` if it cannot complete). -/
 def stepOp (fl : Flavour) (s : St) (op : Op) : St × Out :=
-  runP fl seqCfg (op.size + 4) s (.fresh 0 op)
+  ((stepOpS fl s op).1, (stepOpS fl s op).2.outOrBlocks)
 
 def runOps (fl : Flavour) (s : St) : List Op → St
   | [] => s
   | op :: r => runOps fl (stepOp fl s op).1 r
+
+/-- values left in the hands of operations of the program that blocked for good -/
+def stranded (fl : Flavour) (s : St) : List Op → List Val
+  | [] => []
+  | op :: r => (stepOpS fl s op).2.inHand ++ stranded fl (stepOp fl s op).1 r
 
 end Fv.Chan
